@@ -267,6 +267,21 @@ def scope_program(rng, maxdepth=5, bad=0.04):
                 else:
                     n = rng.choice(names)
                     kw = b"eval " if rng.random() < .5 else b""
+                    if rng.random() < 0.18:
+                        # a field (or variable) holding nil is still present: it must be found, and shadow outer ones
+                        nilvars = [m for m, t in visible_vars().items() if t == "nil"]
+                        src = rng.choice(nilvars).encode() if nilvars and rng.random() < 0.5 else b"nil"
+                        lines.append(pad + kw + n.encode() + b" = " + src)
+                        lines.append(pad + b"print " + n.encode())
+                        hit = False
+                        for sc in reversed(scopes):
+                            if n in sc:
+                                sc[n] = "nil"
+                                hit = True
+                                break
+                        if not hit:
+                            fields[-1].add(n)
+                        continue
                     lines.append(pad + kw + n.encode() + b" = %d" % val())
                     hit = False
                     for sc in reversed(scopes):
@@ -307,7 +322,11 @@ def check_C02(ctx):
              b"var x = 1\nvar x = 2\n", b"print y\n", b"def b { print y }\n", b"def b { y = 1\n def c { print y\n y = 2\n print y }\n print y }\n",
              b"var a\ndef b { a = 5 }\nprint a\n", b"def b { var a = 1\n}\nprint a\n",
              b"var x = 1\nprint (x = 2) + x\nprint x\n", b"def b { f = 1\n print (f = f + 1) + f }\n",
-             b"var x = 5\ndef b { x = x + 1\n var x = x * 2\n x = x + 1\n print x }\nprint x\n"]
+             b"var x = 5\ndef b { x = x + 1\n var x = x * 2\n x = x + 1\n print x }\nprint x\n",
+             b"def a { x = 1\n def b { x = nil\n print x } }\n", b"var u\ndef a { f = u\n print f }\n",
+             b"def a { f = 1 and nil\n print f\n def b { print f\n f = 2\n print f }\n print f }\n",
+             b"def a { var v = 1\n var v = 2\n print v }\n", b"def a { var v = 1 }\ndef b { var v = 2\n print v }\n",
+             b"def a { def b { var v = 1 }\n var w = 2\n var v = 3\n print v + w }\n"]
     cases = [dict(id="s%d" % i, src=s) for i, s in enumerate(srcs)]
     rs, missing, err = interp.run(ctx, cases)
     decide(ctx, rs, missing, err, {"out", "blocks", "log", "parts"}, "C02_scoping", "scope", errclass_only=True)
@@ -318,7 +337,7 @@ def check_C02(ctx):
 
 # ---------------------------------------------------------------- C03 / C04
 def blocks_program(rng, with_bind=False, inject_error=True):
-    types = ["tunnel", "srv", "db", "x"]
+    types = ["tunnel", "srv", "db", "x"] if rng.random() < 0.8 else ["my_svc", "mysvc", "MySvc", "x"]
     lines = []
     ntop = rng.randint(0, 6)
     made = []
@@ -397,6 +416,10 @@ def check_C03(ctx):
     ctx.build(["Proofs/TieVm.vo", "Properties/C03.vo"], "Properties/C03.v")
     rng = random.Random(ctx.seed * 3001 + 3)
     srcs = [blocks_program(rng) for _ in range(ctx.n(1000, 10000))]
+    srcs += [blocks_program(rng, with_bind=True, inject_error=False) for _ in range(ctx.n(300, 3000))]
+    srcs += [b'def server "a" {}\ndef client "b" {}\ndef server "c" {}\ndef client "d" {}\nbind client:all -> slice\n',
+             b'def x "1" {}\ndef y "2" {}\ndef y "3" {}\nbind y:last -> struct\ndef x "4" {}\n',
+             b'def rack "a\\tb" { same = NAME == "a\\tb" }\ndef rack "caf\\u00e9" {}\ndef rack "say \\"hi\\"" {}\n']
     srcs += [b'def a "n" { def b "m" { x = 1 }\n def b "m" { x = 2 } }\n', b"def a { def b {}\n b = 1 }\n",
              b"def a { b = 1\n def b {} }\n", b'def a { def b "c" {}\n def b "c" {} }\n', b"def a {}\ndef a {}\n",
              b'def a "x.y" { def b { def c { TYPE = 1\n print TYPE } } }\n', b"def a { x = 1 }\nprint 1/0\ndef b {}\n",
@@ -422,6 +445,11 @@ def check_C04(ctx):
                     s += b"bind t" + sel + b" -> " + tgt + b"\n"
                     s += b"".join(b'def t "late%d" { }\n' % k for k in range(after))
                     srcs.append(s)
+    for bt in (b"my_svc", b"mysvc", b"MySvc", b"my_s_vc", b"MYSVC"):
+        for sel, tgt in ((b"", b"struct"), (b":first", b"struct"), (b":last", b"struct"), (b":all", b"slice"), (b":1", b"slice")):
+            srcs.append(b'def my_svc "a" { i = 1 }\ndef mysvc "b" { i = 2 }\ndef MySvc "c" { i = 3 }\nbind ' + bt + sel + b" -> " + tgt + b"\n")
+    srcs += [b"def a{x=1}\ndef other{y=0}\ndef a{x=2}\nbind a:all -> slice\n", b"def a{x=1}\ndef other{y=0}\ndef a{x=2}\nbind a -> struct\n",
+             b"def o{}\ndef a{x=1}\ndef o{}\ndef o{}\ndef a{x=2}\ndef a{x=3}\ndef o{}\nbind a:all -> slice\n"]
     srcs += [b"def t {}\nbind t -> struct\nbind t:first -> slice\nbind t:last -> struct\n",
              b"def t {}\ndef a { bind t -> struct }\n", b"def a { def t {}\n bind t -> struct }\n",
              b"def t {}\nbind t -> struct\nbind nosuch -> struct\n", b"bind -> struct\n", b"bind t struct\n",
